@@ -339,5 +339,38 @@ def check(P, R):
     R.ob('C19.b', f, pidx[0] if pidx else f.node, ok, text='params / filters_out / filters indexed by one counter advanced once per marker', detail='' if ok else
          'names and filters are not consumed in step, one per wildcard')
 
+    # str.find() results used as slice bounds: -1 ("not found") silently drops the last character
+    for x in walk_shallow(f.node):
+        if isinstance(x, ast.Subscript) and isinstance(x.slice, ast.Slice):
+            for bnd in (x.slice.lower, x.slice.upper):
+                if bnd is not None and any(isinstance(y, ast.Call) and call_attr(y) in ('find', 'rfind') for y in ast.walk(bnd)):
+                    R.ob('C19.a', f, x, False, detail=
+                         f'`{short(x)}` uses str.find() directly as a slice bound: when nothing is found it is -1 and the slice loses its last character - for the last '
+                         f'wildcard the literal tail handed to the look-ahead filter is cut, so url() raises for values the rule matched',
+                         why='every parameter assignment obtained by matching must be buildable', key_extra='find-bound')
+    # ---- d: the build pattern is assembled from the same parts as the match pattern
+    pr = P.func(f'{RR}:Route.parse_rule')
+    rets = [n for n in walk_shallow(pr.node) if isinstance(n, ast.Return) and isinstance(n.value, ast.Tuple) and len(n.value.elts) == 5]
+    R.require(rets, 'parse_rule: 5-tuple return not found')
+    for r in rets:
+        rn = pr.cfg.node_of_stmt(r)[0]
+        e_match, e_build = r.value.elts[0], r.value.elts[3]
+        clb = pr.rd.closure_nodes(e_build, rn)
+        derived = [x for x in clb if isinstance(x, ast.Call) and (call_attr(x) in ('sub', 'replace', 'translate') or dotted(x.func) in ('re.sub',))]
+        joins = [x for x in clb if isinstance(x, ast.Call) and call_attr(x) == 'join' and x.args and isinstance(x.args[0], ast.Name)]
+        ok = bool(joins) and not derived
+        det = ''
+        if derived:
+            det = (f'the build pattern is derived from the joined match pattern by `{short(derived[0])}`: text of the rule that looks like what is being stripped '
+                   f'(e.g. digits right after a filtered wildcard look like a selector) disappears from built URLs')
+        elif not joins:
+            det = 'the build pattern is not assembled from the rule parts'
+        if ok:
+            lst = joins[0].args[0].id
+            apps = [c for c in walk_shallow(pr.node) if isinstance(c, ast.Call) and call_attr(c) == 'append' and dotted(c.func.value) == lst]
+            ok = bool(apps) and all(isinstance(c.args[0], ast.Name) for c in apps) and all(T.loops_of(c) for c in apps)
+            det = '' if ok else 'the parts appended to the build pattern are not the plain rule parts'
+        R.ob('C19.b', pr, r, ok, text='pattern_out = join of the plain rule parts (marker without selector), built alongside the match pattern', detail=det,
+             why='literal parts of the rule appear verbatim and in order in the built URL', key_extra='build-pattern')
     # ---- c
     check_url_loop(P, R)
